@@ -54,12 +54,22 @@ for name in names:
                 t0 = time.time()
                 r = sh([os.path.join(HERE, "check"), cid, "--tier", "quick"], env=dict(os.environ, VERIF_REPO=W, VERIF_OUT_DIR=OUT), timeout=7200)
                 sigs = re.findall(r"VIOLATION property=\S+ replay=\S+\n\s+clause=\S+ signature=(\S+)", r.stdout)
-                row["checks"][cid] = {"exit": r.returncode, "signatures": sigs[:3], "wall_s": round(time.time() - t0, 1)}
+                hits = None
+                try:
+                    with open(os.path.join(OUT, "evidence", f"{cid}.json")) as f_:
+                        ev_ = json.load(f_)
+                    hits = sum(ev_["coverage"].get("violation_counts", {}).values())
+                    runs_ = ev_["coverage"].get("simulated_runs")
+                except Exception:  # noqa: BLE001
+                    runs_ = None
+                # margin: how many of the runs violated (a detection that hangs on one or two runs is fragile)
+                row["checks"][cid] = {"exit": r.returncode, "signatures": sigs[:3], "wall_s": round(time.time() - t0, 1),
+                                      "violating_runs": hits, "runs": runs_}
                 caught = caught or r.returncode == 1
                 if r.returncode not in (0, 1):
                     row["checks"][cid]["tail"] = r.stdout[-400:]
             row["caught"] = caught
-            print(f"{name}: {'CAUGHT' if caught else 'MISSED'} " + " ".join(f"{c}=exit{v['exit']}" for c, v in row["checks"].items()), flush=True)
+            print(f"{name}: {'CAUGHT' if caught else 'MISSED'} " + " ".join(f"{c}=exit{v['exit']}({v.get('violating_runs')} violating runs)" for c, v in row["checks"].items()), flush=True)
     finally:
         sh(["git", "-C", "/repo", "worktree", "remove", "--force", W])
         shutil.rmtree(OUT, ignore_errors=True)
